@@ -1,5 +1,50 @@
 (* Pins the C41 statements and prints what they depend on. Compiled on every run. *)
 From Coq Require Import String.
-From VP Require Import Base.Tactics Text.Str Text.Expand Parse.Model Parse.Props.
+From VP Require Import Base.Tactics Text.Str Text.Expand Parse.Model Parse.Proofs Parse.Props.
 Open Scope N_scope.
-Print Assumptions C41_demo_relocate.
+
+Check (C41_prepass_no_panic : forall source, prepass source <> PPanic).
+
+Check (C41_expand_terminates :
+  (forall f g lines orig, (length lines < f)%nat ->
+     one_pass_o f g lines orig = one_pass_o (S (length lines)) g lines orig) /\
+  (forall text orig e oo, length orig = length (str_lines text) ->
+     one_pass_text_o text orig = POk (e, oo) ->
+     length oo = length (str_lines e) /\
+     N.of_nat (length (str_lines e)) <= N.of_nat (length (str_lines text)) + max_expanded_lines) /\
+  (forall source t o, expand_o source = POk (t, o) ->
+     length o = length (str_lines t) /\
+     N.of_nat (length (str_lines t)) <= N.of_nat (length (str_lines source)) + 10 * max_expanded_lines /\
+     exists oo, one_pass_text_o t o = POk (t, oo))).
+
+Check (C41_position_in_range : forall source,
+  (forall a, prepass source = PNest a -> loc_in source a) /\
+  (forall p a, relocate source p = Some a -> loc_in source a)).
+
+Check (C41_position_bounds : forall source a, loc_in source a ->
+  l_pos a <= utf8_len source /\
+  1 <= l_line a <= N.of_nat (length (split_nl source)) /\
+  1 <= l_col a <= 1 + N.of_nat (length (line_of source (l_line a - 1)))).
+
+Check (C41_from_position_in_range : forall source position, loc_in source (from_position source position)).
+
+(* the notions the statements use, pinned too *)
+Check (eq_refl : loc_in = fun (s : str) (a : loc) =>
+  exists before after, s = (before ++ after)%list /\
+    l_pos a = utf8_len before /\
+    l_line a = 1 + count_nl before /\
+    l_col a = 1 + N.of_nat (length (last_seg before))).
+Check (eq_refl : count_nl = fun l => N.of_nat (length (filter (fun c => c =? 10) l))).
+Check (eq_refl : max_expanded_lines = 100000).
+Check (eq_refl : max_expansion_passes = 10%nat).
+Check (eq_refl : relocate = fun source p =>
+  match prepass source with
+  | PPass expanded origins pre => Some (in_original source expanded origins pre p)
+  | _ => None
+  end).
+
+Print Assumptions C41_prepass_no_panic.
+Print Assumptions C41_expand_terminates.
+Print Assumptions C41_position_in_range.
+Print Assumptions C41_position_bounds.
+Print Assumptions C41_from_position_in_range.
